@@ -97,11 +97,11 @@ Definition unsubscribe (o : oid) (tok_obs : oid) (tok : Z) : M Z :=
   match o_state ob with
   | ODisallowed | OUnlinked => ret 0
   | _ =>
+    if negb (existsb (fun h => bool_decide (hd_token h = tok)) (o_handlers ob)) then ret 0 else   (* already removed *)
     upd_obs o (fun ob => ob <| o_handlers := filter (fun h => hd_token h ≠ tok) (o_handlers ob) |>) ;;;
     (match o_state ob with
      | OInUse =>
-         (* internal_observer.rs:134 — `num.increment()` *)
-         upd_node (o_observing ob) (fun x => x <| n_num_handlers := n_num_handlers x + 1 |>)
+         upd_node (o_observing ob) (fun x => x <| n_num_handlers := n_num_handlers x - 1 |>)
      | _ => ret tt
      end) ;;;
     ret 0
@@ -118,7 +118,14 @@ Definition node_update_of (n : nid) : M node_update :=
   x <- get_node n ;;
   if negb (n_valid x) then ret NUInvalidated
   else if negb (is_necessary x) then ret NUUnnecessary
-  else v <- value_of n ;; ret (match v with Some _ => NUChanged | None => NUNecessary end).
+  else
+    v <- value_of n ;;
+    now <- gets stab_num ;;
+    (* Changed only if the value changed in the stabilisation that just ended *)
+    ret (match v with
+         | Some _ => if bool_decide (n_changed_at x + 1 = now) then NUChanged else NUNecessary
+         | None => NUNecessary
+         end).
 
 (* really_run_downcast (node_update.rs:61) + the public wrapper of try_subscribe (public.rs:99) *)
 Definition really_run (o : oid) (hix : nat) (h : handler) (n : nid) (nu : node_update) : M unit :=
